@@ -350,6 +350,6 @@ func TestC14(t *testing.T) {
 		"reference model over []rune; upper/lower asserted only on runes without special casing; substring with a negative length is not asserted (statement silent)")
 	runProperty(t, r,
 		Stage[c14Case]{Name: "short-strings", Enum: c14Enum, Run: c14Run},
-		Stage[c14Case]{Name: "random", Gen: c14Gen, Run: c14Run, N: pick(10000, 250000)},
+		Stage[c14Case]{Name: "random", Gen: c14Gen, Run: c14Run, N: pick(30000, 250000)},
 	)
 }
